@@ -2,6 +2,7 @@
 import time
 import traceback
 import z3
+from . import state
 from . import core
 from .core import E, Abort, Unsupported, mk
 
@@ -187,6 +188,7 @@ def explore(fn, max_paths=200000, max_seconds=600.0, sample_paths=3, keep_violat
             break
         p, ph = work.pop()
         E.reset(p)
+        state.restore()       # each path is a fresh run of the code under test: module-level caches start as at import
         E.prefix_hash = ph
         core._choice_counter[0] = 0
         d = SymDraw()
